@@ -113,7 +113,8 @@ EXPANDED_TIES = ("RxModel.GenTie.Subject", "RxModel.GenTie.SubjectThreads", "RxM
     f"RxModel.GenTie.{w}{m}{t}" for w in ("", "Wiring") for m in ("Delay", "ObserveOn") for t in ("", "Threads")) + (
     "RxModel.GenTie.Debounce", "RxModel.GenTie.Throttle", "RxModel.GenTie.WiringDebounce", "RxModel.GenTie.WiringThrottle",
     "RxModel.GenTie.Scheduler", "RxModel.GenTie.DelaySubscription", "RxModel.GenTie.Conversions",
-    "RxModel.GenTie.TimeSourcesModel", "RxModel.GenTie.TimeOpsModel", "RxModel.GenTie.CompleteStatus", "RxModel.GenTie.Share", "RxModel.GenTie.AsyncSources")
+    "RxModel.GenTie.TimeSourcesModel", "RxModel.GenTie.TimeOpsModel", "RxModel.GenTie.CompleteStatus", "RxModel.GenTie.Share", "RxModel.GenTie.AsyncSources",
+    "RxModel.GenTie.Holds", "RxModel.GenTie.HoldsPins")
 
 
 def expanded_source():
